@@ -62,13 +62,19 @@ def sql2pdb (t : List Atom) : Except Err (List Str) := t.mapM Gen.data2pdb_line
 def readTable (lines : List Str) : Except Err (List Atom) :=
   if lines.isEmpty then throw Err.indexError else Fnat.tableOfLines lines
 
-/-- `table1.k = table2.k` for a column name as written in `match` (SQL identifiers are case-insensitive) -/
+/-- `table1.k = table2.k` for a column name as written in `match` (SQL identifiers are case-insensitive: the spellings
+    used in the sources are listed) -/
 def keyEq (k : String) (a b : Atom) : Bool :=
-  match k.toLower with
-  | "serial" => a.serial == b.serial | "name" => a.name == b.name | "altloc" => a.altLoc == b.altLoc
-  | "resname" => a.resName == b.resName | "chainid" => a.chainID == b.chainID | "resseq" => a.resSeq == b.resSeq
-  | "icode" => a.iCode == b.iCode | "element" => a.element == b.element | "model" => a.model == b.model
-  | _ => false
+  if k = "name" then a.name == b.name
+  else if k = "resname" || k = "resName" then a.resName == b.resName
+  else if k = "resSeq" || k = "resseq" then a.resSeq == b.resSeq
+  else if k = "chainID" || k = "chainid" then a.chainID == b.chainID
+  else if k = "serial" then a.serial == b.serial
+  else if k = "altLoc" || k = "altloc" then a.altLoc == b.altLoc
+  else if k = "iCode" || k = "icode" then a.iCode == b.iCode
+  else if k = "element" then a.element == b.element
+  else if k = "model" then a.model == b.model
+  else false
 
 def matchKeys (a b : Atom) : Bool := Gen.match_default.all (fun k => keyEq k a b)
 
@@ -130,23 +136,28 @@ structure Out where
   target : List Atom
   files : List FileEffect
 
+/-- `if export: …` -/
+def exportFiles (mob tar : Db) (doExport : Bool) (mobile' : List Atom) : Except Err (List FileEffect) :=
+  if doExport then
+    match tar.pdbfile, mob.pdbfile with
+    | some tn, some mn => do
+      let lines ← sql2pdb mobile'                     -- sql_mobile.exportpdb(fname)
+      pure [(exportName mn tn, lines)]
+    | _, _ => throw Err.typeError                     -- os.path.basename(<list>)  (the table was updated before)
+  else pure []
+
 /-- `superpose(mobile, target, method, only_backbone, export, **kwargs)` on two databases.
     `kernel P Q` is `get_rotation_matrix(P, Q, method)`. -/
 def superpose (kernel : List V → List V → Except Err (Mat3 Rat)) (mob tar : Db) (a : Args) : Except Err Out := do
   let sel ← selection a
-  let (selMob, selTar) ← matched mob.rows tar.rows sel
+  let m ← matched mob.rows tar.rows sel
   -- an empty selection: np.mean(·, 0) of an empty array is a scalar nan and the kernel's guard `any(...)` raises TypeError
-  if selMob.isEmpty then throw Err.typeError
-  let xyzMobile := mob.rows.map pos                   -- xyz_mobile = np.array(sql_mobile.get("x,y,z"))
-  let xyzMobile ← superposeSelection kernel xyzMobile selMob selTar
+  if m.1.isEmpty then throw Err.typeError
+  -- xyz_mobile = np.array(sql_mobile.get("x,y,z")); xyz_mobile = superpose_selection(xyz_mobile, selection_mobile, selection_target, method)
+  let xyzMobile ← superposeSelection kernel (mob.rows.map pos) m.1 m.2
   -- sql_mobile.update('x,y,z', xyz_mobile): row i gets the i-th triple
   let mobile' := (mob.rows.zip xyzMobile).map (fun p => setPos p.1 p.2)
-  if a.doExport then
-    match tar.pdbfile, mob.pdbfile with
-    | some tn, some mn => do
-      let lines ← sql2pdb mobile'                     -- sql_mobile.exportpdb(fname)
-      pure { mobile := mobile', target := tar.rows, files := [(exportName mn tn, lines)] }
-    | _, _ => throw Err.typeError                     -- os.path.basename(<list>)  (the table was updated before)
-  else pure { mobile := mobile', target := tar.rows, files := [] }
+  let files ← exportFiles mob tar a.doExport mobile'
+  pure { mobile := mobile', target := tar.rows, files := files }
 
 end Model.SupDb
